@@ -87,6 +87,10 @@ def _part_a(job):
                 pnl = qq * (exit_ - entry) * (1 if typ == 'long' else -1) - fee * qq * (entry + exit_)
                 ref.append({'type': typ, 'pnl': pnl, 'fee': fee * qq * (entry + exit_), 'hold': (t.closed_at - t.opened_at) / 1000})
             daily = [start, start * 1.01, start * 0.99]
+            # a trade whose net PnL is zero in exact arithmetic but not in floats (profit == fee) has no defined sign
+            if any(r['pnl'] != 0 and abs(r['pnl']) < 1e-9 * max(1.0, abs(r['fee'])) for r in ref):
+                cnt['A_lists_ambiguous_sign_skipped'] = cnt.get('A_lists_ambiguous_sign_skipped', 0) + 1
+                continue
             cnt['A_lists'] = cnt.get('A_lists', 0) + 1
             if klass not in ('mixed',):
                 cnt['A_degenerate_lists'] = cnt.get('A_degenerate_lists', 0) + 1
